@@ -776,6 +776,9 @@ class Vector():
 					underlying = self._underlying
 				if target.nullable and not self._dtype.nullable:
 					self._dtype = self._dtype.with_nullable(True)
+			elif self._dtype is not None and not self._dtype.nullable and any(v is None for v in new_values):
+				# object columns accept any value, but None still has to show in the schema
+				self._dtype = self._dtype.with_nullable(True)
 		# =====================================================================
 		# MUTATE — copy-on-write + fingerprint updates
 		# =====================================================================
